@@ -287,9 +287,51 @@ def family_alldiff_cont():
         yield ('alldiff-cont ' + nm, Model(V3, lcons=[e]))
 
 
+def family_compl():
+    """expr complements variable (bounded variable: both-sided complementarity)"""
+    exprs = [('y-1', None, {0: 1.0}, -1.0), ('x+y-2', None, {0: 1.0, 1: 1.0}, -2.0), ('abs(x)-1', ('sub', ('abs', X), N(1)), {}, 0.0),
+             ('1-y-b', None, {0: -1.0, 2: -1.0}, 1.0), ('x*b-1', ('sub', ('mul', X, B), N(1)), {}, 0.0)]
+    for nm, e, lin, const in exprs:
+        for v in (0, 1, 2):
+            ee = e if const == 0.0 else (('add', e, N(const)) if e is not None else N(const))
+            yield ('compl %s _|_ x%d' % (nm, v), Model(V3, acons=[(ee, lin, -INF, INF)], compl={0: v}))
+            yield ('compl %s _|_ x%d + obj' % (nm, v), Model(V3, acons=[(ee, lin, -INF, INF), (None, {0: 1.0, 1: 1.0}, -INF, 3.0)],
+                                                           compl={0: v}, obj=('min', None, {0: 1.0, 1: -1.0, 2: 1.0})))
+
+
+def family_sos():
+    """SOS1 / SOS2 sets declared by suffixes on the three variables"""
+    VS = [(0.0, 2.0, False, 0.5), (0.0, 2.0, False, 1.0), (0.0, 2.0, True, 1.0)]
+    sets = [('sos1', {0: 1, 1: 1, 2: 1}), ('sos2', {0: -1, 1: -1, 2: -1}), ('sos1-pair', {0: 2, 2: 2}), ('sos2+single', {0: -3, 1: -3, 2: 5})]
+    refs = [('asc', {0: 1.0, 1: 2.0, 2: 3.0}), ('perm', {0: 2.0, 1: 3.0, 2: 1.0})]
+    cons = [('sum>=2', [(None, {0: 1.0, 1: 1.0, 2: 1.0}, 2.0, INF)]), ('sum==1.5', [(None, {0: 1.0, 1: 1.0, 2: 1.0}, 1.5, 1.5)]),
+            ('max>=1', [(('max', ('v', 0), ('v', 2)), {}, 1.0, INF)])]
+    for sn, so in sets:
+        for rn, rf in refs:
+            for cn, ac in cons:
+                yield ('sos %s %s %s' % (sn, rn, cn), Model(VS, acons=ac, obj=('max', None, {0: 1.0, 1: 2.0, 2: 1.0}),
+                                                          suffixes=[(0, False, 'sosno', so), (0, True, 'ref', rf)]))
+    yield ('sos via .sos/.sosref', Model(VS, acons=cons[0][1], obj=('max', None, {0: 1.0, 1: 2.0, 2: 1.0}),
+                                         suffixes=[(0, False, 'sos', {0: 1, 1: 1, 2: 1}), (0, True, 'sosref', refs[0][1])]))
+
+
+def family_dvars():
+    """defined variables (common expressions) used in several places, with linear parts"""
+    for nm, lin, e in [('abs', {}, ('abs', X)), ('lin+max', {0: 1.0}, ('max', X, B)), ('purelin', {0: 1.0, 1: -1.0}, None),
+                       ('pl', {}, ('pl', (-1.0, 1.0, 2.0), (0.0, 1.0), X)), ('nested', {2: 1.0}, ('min', ('abs', X), Y))]:
+        d = ('d', 0)
+        yield ('dvar %s twice' % nm, Model(V3, dvars=[(lin, e)], acons=[(d, {}, -INF, 1.0), (('neg', d), {1: 1.0}, -2.0, INF)]))
+        yield ('dvar %s obj+con' % nm, Model(V3, dvars=[(lin, e)], acons=[(d, {2: 1.0}, 0.0, 2.0)], obj=('max', d, {})))
+        yield ('dvar %s logical' % nm, Model(V3, dvars=[(lin, e)], lcons=[('or', ('ge', d, N(1)), ('ge', B, N(1)))],
+                                           acons=[(('mul', N(2), d), {}, -INF, 3.0)]))
+    yield ('dvar chain', Model(V3, dvars=[({}, ('abs', X)), ({0: 1.0}, ('max', ('d', 0), B))],
+                               acons=[(('d', 1), {}, -INF, 2.0)], obj=('min', ('d', 0), {2: 1.0})))
+
+
 FAMILIES = {
     'shapes': family_shapes, 'sharing': family_sharing, 'canon': family_canon, 'uenc': family_uenc,
     'bounds': family_bounds, 'linmix': family_linear_mix, 'alldiffcont': family_alldiff_cont,
+    'compl': family_compl, 'sos': family_sos, 'dvars': family_dvars,
 }
 
 
